@@ -21,7 +21,7 @@ BUDGET = {'quick': 150, 'thorough': 1500}
 MISMATCH_BUDGET = 0.0
 RULE = ('arrays drawn from 9 streams (uniform random, constant, piecewise linear with integer / fractional '
         'slopes in quanta, count/value collision runs, short 0-6, pre-quantised, rounding ties, large magnitude, '
-        'via sequence+file); each array goes through compress_shape/decompress_shape of the implementation '
+        'via sequence+file; plus an in-memory stream: families of near-twin shapes (differences 3e-8 .. 1e-6 of full scale) and extended trapezoids on 1-20 us rasters stored in one Sequence and compared with what was handed over, before and after write+read); each array goes through compress_shape/decompress_shape of the implementation '
         '(oracle: length, 5e-8 bound with exact Fractions, compressed not longer) and, unless tie-prone, through '
         'the extracted Coq model (packed length and every decoded sample compared). distinct = distinct arrays; '
         'non-trivial = length > 4 and actually stored compressed, or a collision/short-branch case')
@@ -392,6 +392,108 @@ def file_stream_long(ctx, rng, count):
             ctx.fail('C14/file-long-bound', case, {'error': err})
 
 
+def memory_stream(ctx, rng, count):
+    """shapes inside ONE sequence object, compared with what the caller handed over (not with another decode):
+    families of near-twin raster shapes that differ by a few 1e-8 .. 1e-6 of full scale (each must come back as itself
+    within 5e-8, never as its sibling), extended trapezoids with corners one raster apart and irregular corners, on
+    gradient rasters from 1 us to 20 us (the time points must come back exactly); then the same comparison after
+    write + read.  Amplitudes are exactly 1 so that the stored shape IS the waveform."""
+    import pypulseq as pp
+    for k in range(count):
+        r = rng.choice([10e-6, 1e-6, 4e-6, 20e-6, 10e-6])
+        system = pp.Opts(max_grad=1e12, max_slew=1e16, grad_raster_time=r, rf_raster_time=1e-6, block_duration_raster=r)
+        seq = pp.Sequence(system)
+        stored = {}
+        kinds = []
+        for b in range(rng.randint(2, 5)):
+            kind = rng.choice(['twinfam', 'twinfam', 'ext1', 'ext', 'smoothfam'])
+            evs = []
+            if kind in ('twinfam', 'smoothfam'):
+                n = rng.randint(6, 40)
+                if kind == 'twinfam':
+                    base = np.round(np.array([rng.uniform(-1, 1) for _ in range(n)]), 7)
+                else:
+                    base = np.round(np.sin(math.pi * (np.arange(n) + 0.5) / n) * 0.9, 7)
+                j = rng.randrange(n)
+                base[j] = 1.0
+                d = rng.choice([3e-8, 6e-8, 6e-8, 1.2e-7, 4e-7, 1e-6])
+                for ch in rng.sample('xyz', rng.choice([2, 3])):
+                    pat = np.array([rng.choice([-1.0, 0.0, 1.0]) for _ in range(n)])
+                    pat[j] = 0.0
+                    w = np.clip(base + d * pat, -1.0, 1.0)
+                    w[j] = 1.0
+                    evs.append(pp.make_arbitrary_grad(ch, w, first=0.0, last=0.0, system=system))
+            elif kind == 'ext1':
+                amps = [0.0, rng.uniform(-1, 1), rng.uniform(-1, 1), 0.0]
+                m = max(abs(a) for a in amps) or 1.0
+                amps = [a / m for a in amps]
+                t0 = rng.choice([0, 0, 3])
+                evs.append(pp.make_extended_trapezoid(rng.choice('xyz'), amplitudes=np.array(amps),
+                                                      times=np.array([t0, t0 + 1, t0 + 2, t0 + 3]) * r, system=system))
+            else:
+                n = sorted(rng.sample(range(1, 40), rng.randint(2, 5)))
+                amps = [0.0] + [rng.uniform(-1, 1) for _ in n[:-1]] + [0.0]
+                amps[1] = 1.0
+                evs.append(pp.make_extended_trapezoid(rng.choice('xyz'), amplitudes=np.array(amps), times=np.array([0] + n) * r,
+                                                      system=system))
+            kinds.append(kind)
+            try:
+                dur = pp.calc_duration(*evs)
+                blk = evs + [pp.make_delay(math.ceil(dur / r - 1e-9) * r + 10 * r)]
+                seq.add_block(*blk)
+                stored[list(seq.block_events.keys())[-1]] = evs
+            except Exception as e:  # noqa: BLE001
+                ctx.count('memory.skipped_add_raise')
+        if not stored:
+            continue
+        case = {'kind': 'memory', 'index': k, 'raster': r, 'blocks': kinds}
+        ctx.evaluated(('memory', k, r, tuple(kinds)))
+        ctx.count('stream.memory')
+        ctx.count('memory.raster_%gus' % (r * 1e6))
+
+        def compare(obj, where):
+            for i, evs in stored.items():
+                try:
+                    blk = obj.get_block(i)
+                except Exception as e:  # noqa: BLE001
+                    ctx.fail('C14/memory-raises', dict(case, block=int(i), where=where), {'exception': repr(e)[:200]})
+                    return False
+                for e in evs:
+                    g = getattr(blk, 'g' + e.channel)
+                    bad = None
+                    if g is None or g.type != 'grad' or len(g.waveform) != len(e.waveform) or len(g.tt) != len(e.tt):
+                        bad = {'what': 'presence/length', 'got': None if g is None else [len(g.waveform), len(g.tt)],
+                               'want': [len(e.waveform), len(e.tt)]}
+                    else:
+                        dw = float(np.max(np.abs(np.asarray(g.waveform) - np.asarray(e.waveform))))
+                        dt = float(np.max(np.abs(np.asarray(g.tt) - np.asarray(e.tt))))
+                        if dw > 5e-8 + 2e-9:
+                            bad = {'what': 'sample differs from the one handed over by more than 5e-8 of full scale', 'max_abs_diff': dw}
+                        elif dt > 1e-6 * r:
+                            bad = {'what': 'time points differ from the ones handed over', 'max_abs_diff': dt,
+                                   'got_head': [float(v) for v in g.tt[:4]], 'want_head': [float(v) for v in e.tt[:4]]}
+                    if bad:
+                        ctx.fail('C14/memory-%s' % where, dict(case, block=int(i), channel=e.channel), bad)
+                        return False
+            return True
+        if not compare(seq, 'stored'):
+            continue
+        with tempfile.TemporaryDirectory(prefix='pvC14m') as d:
+            fn = os.path.join(d, 'm.seq')
+            try:
+                seq.write(fn, create_signature=False, remove_duplicates=rng.random() < 0.5)
+            except AssertionError:
+                ctx.count('memory.skipped_write_assertion')
+                continue
+            s2 = pp.Sequence(system)
+            try:
+                s2.read(fn)
+            except Exception as e:  # noqa: BLE001
+                ctx.fail('C14/memory-raises', dict(case, where='read'), {'exception': repr(e)[:200]})
+                continue
+        compare(s2, 'reread')
+
+
 def corpus():
     cs = []
     cs.append({'kind': 'corpus', 'force': False, 'x': [0.0] * 2 + [3.0, 3.0 + 7e-7] + [3.0 + 7e-7] * 3})
@@ -444,6 +546,7 @@ def run(ctx):
     file_stream(ctx, ctx.rng('file'), {'quick': 40, 'thorough': 1500}[ctx.tier])
     file_stream_rich(ctx, ctx.rng('file-rich'), {'quick': 60, 'thorough': 2000}[ctx.tier])
     file_stream_long(ctx, ctx.rng('file-long'), {'quick': 1, 'thorough': 6}[ctx.tier])
+    memory_stream(ctx, ctx.rng('memory'), {'quick': 120, 'thorough': 3000}[ctx.tier])
 
 
 def replay(ctx, case):
@@ -451,6 +554,9 @@ def replay(ctx, case):
         rng = ctx.rng('file-rich')
         file_stream_rich(ctx, rng, case['index'] + 1)
         return {'note': 'file-rich stream regenerated up to the recorded index'}
+    if case.get('kind') == 'memory':
+        memory_stream(ctx, ctx.rng('memory'), case['index'] + 1)
+        return {'note': 'memory stream regenerated up to the recorded index'}
     if case.get('kind') == 'file':
         return {'note': 'file-stream case; re-run ./check C14'}
     ns, data, y = impl_roundtrip(case)
